@@ -138,19 +138,24 @@ theorem scan_full_statement_fails_d49 :
 
 /-! ### which paths are expected to hold a pointer ("every tracked file there is a canonical pointer") -/
 
-/-- fsck never expects a pointer at a path Git does not track with LFS — for every list of attribute lines -/
+/-- THE FULL STATEMENT: fsck expects a pointer at a path exactly when Git's own rule — the last matching line that
+    mentions `filter` decides — tracks the path with LFS, for every list of attribute lines (known finding D21 until
+    the tree scanner was given ordered rules) -/
+theorem expected_pointer_paths_are_exactly_the_tracked_ones (ls : List AttrFilter.Line) :
+    AttrFilter.fsckSays ls = AttrFilter.gitSays ls := AttrFilter.fsck_eq_git ls
+
+/-- no false expectation … -/
 theorem expected_pointer_paths_are_tracked (ls : List AttrFilter.Line) (h : AttrFilter.fsckSays ls = true) :
     AttrFilter.gitSays ls = true := AttrFilter.fsck_implies_git ls h
 
-/-- "every tracked file …", PARTIAL: shown when no matching line takes the path out of LFS again -/
-theorem tracked_paths_are_expected_partial (ls : List AttrFilter.Line)
-    (hoff : (ls.any fun l => l.hit && l.hasFilter && !l.lfs) = false) (h : AttrFilter.gitSays ls = true) :
-    AttrFilter.fsckSays ls = true := AttrFilter.git_implies_fsck_partial ls hoff h
+/-- … and nothing missed -/
+theorem tracked_paths_are_expected (ls : List AttrFilter.Line) (h : AttrFilter.gitSays ls = true) :
+    AttrFilter.fsckSays ls = true := AttrFilter.git_implies_fsck ls h
 
-/-- what is missing from the full statement, with its witness (known finding D21): `-filter` then `filter=lfs` -/
-theorem tracked_paths_full_statement_fails_d21 :
+/-- the input on which the full statement used to fail: `-filter` then `filter=lfs` -/
+theorem d21_input_now_agrees :
     AttrFilter.gitSays [⟨true, true, false⟩, ⟨true, true, true⟩] = true ∧
-    AttrFilter.fsckSays [⟨true, true, false⟩, ⟨true, true, true⟩] = false := AttrFilter.d21_witness
+    AttrFilter.fsckSays [⟨true, true, false⟩, ⟨true, true, true⟩] = true := AttrFilter.d21_repaired
 
 /-- a line that only makes files lockable takes no path out of the pointer check, wherever it stands (D71) -/
 theorem lockable_only_line_is_irrelevant (pre post : List AttrFilter.Line) (l : AttrFilter.Line) (h : l.hasFilter = false) :
